@@ -20,6 +20,10 @@ impl Hash {
         201, 173, 193, 18, 183, 204, 154, 147, 202, 228, 31, 50, 98,
     ]);
     pub fn as_bytes(&self) -> (r: &[u8; 32]) ensures *r == self.0 { &self.0 }
+    /// `Hash::new(data)`: blake3 of the data (uninterpreted)
+    pub uninterp spec fn of_data(data: Seq<u8>) -> Hash;
+    #[verifier::external_body]
+    pub fn new(data: &[u8]) -> (r: Hash) ensures r == Self::of_data(data@) { unimplemented!() }
 }
 /// `==` on the derived PartialEq of Hash / NamespaceId (32-byte newtypes): structural equality
 impl vstd::std_specs::cmp::PartialEqSpecImpl for Hash {
